@@ -200,12 +200,20 @@ func (f *TerraformFetcher) Directors() ([]*snippet.Director, error) {
 	var d []*snippet.Director
 	for _, s := range f.filterService() {
 		for _, director := range s.Directors {
+			// retries and quorum are optional in the plan
+			var retries, quorum int
+			if director.Retries != nil {
+				retries = *director.Retries
+			}
+			if director.Quorum != nil {
+				quorum = *director.Quorum
+			}
 			d = append(d, &snippet.Director{
 				Type:     director.Type,
 				Name:     director.Name,
 				Backends: director.Backends,
-				Retries:  *director.Retries,
-				Quorum:   *director.Quorum,
+				Retries:  retries,
+				Quorum:   quorum,
 			})
 		}
 	}
